@@ -15,7 +15,8 @@ META = {
     'technique': 'explicit-state BFS over (configuration, call) histories with real-state hashing, differential oracle against a fresh process; both builds; heap accounting over cyclic sequences',
     'text': 'Alphabet: ~35 configuration letters (absent, empty, directory, garbage, one per option with a non-default value, every output, dropping/passing chain, error logging with a raising format, '
             'both limits at 255, all options at once, an invalid value per option, duplicate keys) x 2 exec letters. BFS over histories de-duplicated on the digest of every writable library symbol; '
-            'all ordered pairs in addition. Every step\'s emission at every sink must equal the fresh-process emission of that letter. Live heap retained per step must be zero (heap-tracking build, sequences of 2x the alphabet).',
+            'all ordered pairs in addition. Every step\'s emission at every sink must equal the fresh-process emission of that letter. Live heap retained per step must be zero (heap-tracking build, sequences of 2x the alphabet).'
+            " Also: calls made by vfork children whose exec succeeds, the syslog output (harness stand-in with libc's static state), and a first letter 'abandoned_midway' (a call left by siglongjmp while blocked on its output).",
     'note': 'When the state set closes the statement holds for histories of any length over the alphabet. libc-internal state is outside the digest (guarded by the all-pairs pass).',
 }
 
